@@ -358,7 +358,10 @@ func (k Keeper) Undelegate(ctx sdk.Context, msg *types.MsgUndelegate) error {
 		return err
 	}
 
-	poolCoins := types.GetPoolCoins(pool, msg.Amounts)
+	poolCoins, err := types.GetRedeemPoolCoins(pool, msg.Amounts)
+	if err != nil {
+		return err
+	}
 
 	err = k.bankKeeper.SendCoinsFromAccountToModule(ctx, delegator, types.ModuleName, poolCoins)
 	if err != nil {
